@@ -287,3 +287,6 @@ func GcProgram(src string, i int) string {
 }
 
 var gcFuncName = regexp.MustCompile(`(^|[^A-Za-z0-9_."])(f[0-9]+\b|main\(\))`)
+
+// ClosureOnlyTmpl reports whether the nest has a template mirror.
+func (n Nest) ClosureOnlyTmpl() bool { return n.Tmpl != "" }
